@@ -81,6 +81,8 @@ pub fn run(text: &str, ty: &Ty, o: &DOpts) -> Result<Val, serde_saphyr::Error> {
 pub fn expect_term(r: &Result<Val, serde_saphyr::Error>) -> String {
     match r {
         Ok(v) => format!("(XOk {})", v.coq()),
+        // for errors whose location the model computes exactly, the location is compared too
+        Err(e) if coq::variant_name(e) == "DuplicateMappingKey" => format!("(XErrAt {} {})", coq::eclass(e), rawcoq::opt_loc(e.without_snippet().location())),
         Err(e) => format!("(XErr {})", coq::eclass(e)),
     }
 }
